@@ -1,4 +1,5 @@
 import WowVerif.Model.C14Adt
+import WowVerif.Model.C14Water
 import WowVerif.Model.Dispatch18b
 namespace Wv.Drv
 open Wv Wv.Adt
@@ -20,8 +21,25 @@ def firstDiff (names : List String) (got want : List Nat) : String :=
   | some (n, g, w) => s!"{n}: file has {g}, layout gives {w}"
   | none => if got.length ≠ want.length then s!"length {got.length} vs {want.length}" else "ok"
 
+/-- `1:1.648,0.-` = an entry with attributes and two layers (bitmap + 648 bytes of vertex data; neither) -/
+def waterEntryOfString (s : String) : Option Water.Entry :=
+  match s.splitOn ":" with
+  | [a, ls] => do
+      let layers ← (if ls == "" then some [] else (ls.splitOn ",").mapM fun l =>
+        match l.splitOn "." with
+        | [b, v] => some ({ bitmap := b == "1", vdata := if v == "-" then none else v.toNat? } : Water.Layer)
+        | _ => none)
+      pure { layers := layers, attrs := a == "1" }
+  | _ => none
+
 def c14 (toks : List String) : Option String :=
   match toks with
+  | ["c14water", spec] => do
+      let es ← (spec.splitOn ";").mapM waterEntryOfString
+      let r := Water.layout es
+      let outs := (r.1.zipIdx.filter fun (o, _) => ¬ (o.count = 0 ∧ o.attr = 0 ∧ o.inst = 0)).map fun (o, i) =>
+        s!"{i}={o.inst},{o.count},{o.attr}[" ++ ",".intercalate (o.offs.map fun p => s!"{p.1}.{p.2}") ++ "]"
+      pure ((if outs.isEmpty then "-" else " ".intercalate outs) ++ s!" total={r.2}")
   | ["c14top", lay, mh, mc] => do
       let l ← parseLayout lay
       let mhdr := u32sOf (← bytesOfHex mh)
